@@ -49,3 +49,29 @@ Example C03_one_line_examples :
   one_line_statement "SELECT x FROM t WHERE a=1;" "SELECT x FROM t WHERE a = 1;" /\
   one_line_statement "  alter table t add constraint pk primary key (a) ;" "  alter table t add constraint pk primary key (a) ;".
 Proof. repeat split; vm_compute; reflexivity. Qed.
+
+(* ---------- a statement laid out over SEVERAL lines -------------------------------------------------------------------------------------
+   [code_line l l'] speaks about one line alone (no comment marker, not a skipped or SET line, not empty).  Any number of such
+   lines that do not end with ';' and do not begin with CREATE / ALTER / DROP / SET (the first line of a statement read in the
+   initial state may: see C03_statement_from_its_first_line), followed by one that ends with ';': the parser receives the codes of
+   the lines joined by single blanks, without the ';', and the machine is back in its initial state, so the next statement of the
+   script starts from scratch (C03_statements_independent applies with this chunk). *)
+Theorem C03_statement_over_lines : forall parse_stmt (body : list (string * string)) st l l' more,
+  Forall (fun p => code_line (fst p) (snd p) /\ endswith (code_of (snd p)) ";" = false /\ starts_statement (snd p) = false) body ->
+  code_line l l' -> endswith (code_of l') ";" = true -> starts_statement l' = false ->
+  String.eqb (drop_last (joined (join_codes st body) (code_of l'))) "" = false ->
+  run_lines parse_stmt (collecting st) (map fst body ++ [l]) more =
+  (do r <- parse_stmt (drop_last (joined (join_codes st body) (code_of l'))); Ok (lm0, (entities_of r, []))).
+Proof. exact statement_over_lines. Qed.
+Print Assumptions C03_statement_over_lines.
+(* the first line of a statement (it does begin with CREATE ...), read in the initial state *)
+Theorem C03_statement_from_its_first_line : forall parse_stmt l l', code_line l l' -> endswith (code_of l') ";" = false ->
+  process_line parse_stmt lm0 l true = Ok (collecting (Some (code_of l')), ([], [])).
+Proof. intros p l l' H E. exact (continuation_line p l l' None H E (or_introl eq_refl)). Qed.
+Print Assumptions C03_statement_from_its_first_line.
+Example C03_code_lines :
+  code_line "CREATE TABLE t (" "CREATE TABLE t (" /\ starts_statement "CREATE TABLE t (" = true /\
+  code_line "   a int," "   a int," /\ starts_statement "   a int," = false /\
+  code_line "   b varchar(10) DEFAULT='x'" "   b varchar(10) DEFAULT = 'x'" /\
+  code_line ");" ");" /\ endswith (code_of ");") ";" = true.
+Proof. repeat split; vm_compute; reflexivity. Qed.
